@@ -101,7 +101,9 @@ def cxx_flags(contact=1, dynamic=0, san=False, hooks=True, opt="-O1"):
     if hooks:
         fl.append("-D" + GUARD)
     if san == "asan" or san is True:
-        fl += ["-fsanitize=address,undefined", "-fno-sanitize-recover=all", "-fno-omit-frame-pointer"]
+        # _GLIBCXX_ASSERTIONS: a subscript beyond the size of a std::vector / std::array / std::optional access aborts even where the
+        # address it would read is addressable (far beyond the red zone, or inside the capacity), which AddressSanitizer cannot see
+        fl += ["-fsanitize=address,undefined", "-fno-sanitize-recover=all", "-fno-omit-frame-pointer", "-D_GLIBCXX_ASSERTIONS"]
     elif san == "tsan":
         fl += ["-fsanitize=thread"]
     fl += ["-I" + d for d in include_dirs()]
